@@ -246,17 +246,24 @@ func genC05Steps(t *rapid.T) []c05Step {
 			kind = rapid.SampledFrom([]string{"full-ok", "full-ok", "partial", "missing", "nokey", "garbage"}).Draw(t, "scen-kind")
 		}
 		prefix = append(prefix, c05Step{Op: "r-start", Kind: kind}, c05Step{Op: "r-adv", N: rapid.IntRange(1, 4).Draw(t, "scen-m")})
+		if rapid.Bool().Draw(t, "scen-free") {
+			// a query that arrives while the reload is half way (it must wait for the reload lock)
+			prefix = append(prefix, c05Step{Op: "q-free", Query: rapid.IntRange(0, len(kit.StampQueries)-1).Draw(t, "scen-fq"), L1: rapid.Bool().Draw(t, "scen-fl1")})
+		}
 		prefix = append(prefix, c05Step{Op: "q-adv", Slot: 0, N: rapid.IntRange(1, 7).Draw(t, "scen-k2")})
 	}
 	n := rapid.IntRange(2, 30).Draw(t, "nsteps")
 	steps := make([]c05Step, n)
 	defer func() {}()
 	for i := range steps {
-		op := rapid.SampledFrom([]string{"q-start", "q-adv", "q-adv", "q-adv", "r-start", "r-adv", "r-adv", "stage"}).Draw(t, "op")
+		op := rapid.SampledFrom([]string{"q-start", "q-adv", "q-adv", "q-adv", "r-start", "r-adv", "r-adv", "stage", "q-free"}).Draw(t, "op")
 		st := c05Step{Op: op}
 		switch op {
 		case "q-start":
 			st.Slot = rapid.IntRange(0, c05Slots-1).Draw(t, "slot")
+			st.Query = rapid.IntRange(0, len(kit.StampQueries)-1).Draw(t, "query")
+			st.L1 = rapid.Bool().Draw(t, "l1")
+		case "q-free":
 			st.Query = rapid.IntRange(0, len(kit.StampQueries)-1).Draw(t, "query")
 			st.L1 = rapid.Bool().Draw(t, "l1")
 		case "q-adv":
@@ -306,6 +313,13 @@ func c05Run(t kit.Fataler, b kit.Backend, steps []c05Step, record bool, ignoreKn
 	failedThenQueried := false
 	lastReloadFailed := false
 
+	type freeQ struct {
+		q    *c05Query
+		done chan struct{}
+	}
+	var free []freeQ
+	var freePanics []string
+	freeDuringReload := false
 	reloadHoldsLock := func() bool { return reload != nil && !reload.Done && strings.HasPrefix(reload.Point, "reload.") }
 	finishQuery := func(q *c05Query) {
 		stamps := kit.Stamps(q.resp)
@@ -420,6 +434,33 @@ func c05Run(t kit.Fataler, b kit.Backend, steps []c05Step, record bool, ignoreKn
 			if advance(q.th) == "" { // parks at stats:DNS_queries
 				finishQuery(q)
 			}
+		case "q-free":
+			// a free-running query (not owned by the scheduler): it starts now, whatever the
+			// reload is doing; if the reload holds the lock it simply waits for it
+			fq := &c05Query{slot: -1, q: kit.StampQueries[step.Query], client: kit.Client{Resolver: "192.0.2.9"}}
+			if step.L1 {
+				fq.client.Resolver = "10.9.9.9"
+			}
+			fq.q.MaxAns = 8
+			fq.floor = w.committed
+			done := make(chan struct{})
+			go func() {
+				defer close(done)
+				defer func() {
+					if r := recover(); r != nil {
+						freePanics = append(freePanics, fmt.Sprint(r))
+					}
+				}()
+				fq.resp, _, _ = kit.Ask(w.h, fq.q, fq.client)
+			}()
+			select {
+			case <-done:
+			case <-time.After(20 * time.Millisecond):
+			}
+			free = append(free, freeQ{fq, done})
+			if reload != nil && !reload.Done {
+				freeDuringReload = true
+			}
 		case "q-adv":
 			q := slots[step.Slot]
 			if q == nil || q.th.Done {
@@ -498,6 +539,28 @@ func c05Run(t kit.Fataler, b kit.Backend, steps []c05Step, record bool, ignoreKn
 			}
 		}
 	}
+	for _, f := range free {
+		select {
+		case <-f.done:
+		case <-time.After(60 * time.Second):
+			fail("stuck", "a free-running query never finished")
+		}
+		if len(freePanics) > 0 {
+			fail("panic", "free-running query panicked: %v", freePanics)
+		}
+		stamps := kit.Stamps(f.q.resp)
+		if f.q.resp == nil || len(stamps) == 0 {
+			fail("no-response", "free-running query %s: %s", f.q.q.Name, kit.Brief(f.q.resp))
+		}
+		for _, x := range stamps {
+			if x != stamps[0] && !(b != kit.CDB && knownMixed) {
+				fail("mixed-generations", "free-running query %s mixes generations %v", f.q.q.Name, stamps)
+			}
+			if x < f.q.floor || x > w.nextGen {
+				fail("stale-after-reload", "free-running query %s started after the reload to %d returned but shows generation %d", f.q.q.Name, f.q.floor, x)
+			}
+		}
+	}
 	// a final query must show the last successfully loaded generation
 	setSched(nil)
 	for _, c := range []string{"192.0.2.9", "10.9.9.9"} {
@@ -513,6 +576,10 @@ func c05Run(t kit.Fataler, b kit.Backend, steps []c05Step, record bool, ignoreKn
 		if overlap != "" {
 			kit.NonTrivial(fmt.Sprintf("%s|overlap|%s|%s", b, overlap, reloadKind))
 			kit.Class("overlap")
+		}
+		if freeDuringReload {
+			kit.Class("free-query-during-reload")
+			kit.NonTrivial(fmt.Sprintf("%s|free-during-reload|%s", b, reloadKind))
 		}
 		if failedThenQueried {
 			kit.NonTrivial(fmt.Sprintf("%s|failed-then-queried|%v", b, steps))
